@@ -19,6 +19,7 @@ def run(project, rep):
     rep.run(G.cli_layer_rule, project, rep)
     rep.run(G.j_r9_dates_given_to_the_converter_as_typed, project, rep)
     rep.run(G.j_r10_one_shot_iterators_consumed_once, project, rep)
+    rep.run(G.j_r11_unlisted_types_masked, project, rep)
     rep.run(G.acctinfo_layer_rule, project, rep, "J-R1")
     from .. import rules_dates as Z
     rep.rule("J-R4", "the dates given on the command line denote the instants requested: convert_datetime uses the DateTime converter, whose offset plumbing is decided by Z-R4 / Z-R5")
